@@ -96,9 +96,15 @@ Qed.
 Lemma kproj_propagate_task fuel : forall s t, kproj (propagate_task fuel s t) = kproj s.
 Proof.
   induction fuel as [|fuel IH]; intros s t; cbn [propagate_task].
-  - destruct (negb (is_prio_task s t)); kp. destruct (task_is_runnable s t); kp.
+  - destruct (negb (is_prio_task s t)); kp.
+    set (s0 := if task_is_runnable s t then task_reschedule s t else s).
+    assert (E0 : kproj s0 = kproj s) by (unfold s0; destruct (task_is_runnable s t); kp).
+    clearbody s0. rewrite <- E0. clear E0 s. rename s0 into s.
     destruct (twaiting (gett s t)); kp.
-  - destruct (negb (is_prio_task s t)); kp. destruct (task_is_runnable s t); kp.
+  - destruct (negb (is_prio_task s t)); kp.
+    set (s0 := if task_is_runnable s t then task_reschedule s t else s).
+    assert (E0 : kproj s0 = kproj s) by (unfold s0; destruct (task_is_runnable s t); kp).
+    clearbody s0. rewrite <- E0. clear E0 s. rename s0 into s.
     destruct (twaiting (gett s t)) as [l|]; kp.
     set (s1 := match lowner (getl s l) with Some o => propagate_task fuel s o | None => s end).
     assert (E1 : kproj s1 = kproj s) by (unfold s1; destruct (lowner (getl s l)); [apply IH|reflexivity]).
